@@ -154,6 +154,8 @@ Definition check_env (r : request) (a : accepted) (e : wenv) : bool :=
   check_headers (map strip_value (r_headers r)) (e_extra e).
 
 (* ---- the application's output is what PEP 3333 and HTTP allow ---- *)
+(* the reason is printable ASCII: inside the reason-phrase grammar write_headers enforces (fix 92da2a1),
+   and the part of it that is written unchanged (obs-text is UTF-8 encoded by the start line) *)
 Definition status_ok (s : text) : bool :=
   match s with
   | a :: b :: c :: 32 :: reason =>
